@@ -17,11 +17,11 @@ import (
 
 // VerifFrame mirrors the unexported frame struct.
 type VerifFrame struct {
-	AckNo, FrameNo                 uint32
-	DataLength                     uint16
-	REQ, RESP, REL, ACK, FIN, RTR  bool
-	TubeID                         byte
-	Data                           []byte
+	AckNo, FrameNo                uint32
+	DataLength                    uint16
+	REQ, RESP, REL, ACK, FIN, RTR bool
+	TubeID                        byte
+	Data                          []byte
 }
 
 func (v VerifFrame) in() *frame {
@@ -48,11 +48,11 @@ func VerifFromBytes(b []byte) (VerifFrame, error) {
 
 // VerifInitFrame mirrors initiateFrame.
 type VerifInitFrame struct {
-	FrameNo                        uint32
-	TubeID, TubeType               byte
-	Data                           []byte
-	DataLength                     uint16
-	REQ, RESP, REL, ACK, FIN, RTR  bool
+	FrameNo                       uint32
+	TubeID, TubeType              byte
+	Data                          []byte
+	DataLength                    uint16
+	REQ, RESP, REL, ACK, FIN, RTR bool
 }
 
 // VerifInitToBytes = (*initiateFrame).toBytes
@@ -167,14 +167,21 @@ func VerifReliableWriteMsgUDP(b []byte) (stream []byte, n int, err error) {
 	return
 }
 
+// VerifUnread is the number of bytes still buffered in a preloaded tube.
+func VerifUnread(r *Reliable) int {
+	r.recvWindow.m.Lock()
+	defer r.recvWindow.m.Unlock()
+	return r.recvWindow.buffer.Len()
+}
+
 // VerifReliableReadMsgUDP runs the production (*Reliable).ReadMsgUDP on a tube whose stream holds
 // exactly b; returns the message, the bytes left unread and the error.
 func VerifReliableReadMsgUDP(b []byte) (msg []byte, left int, err error) {
-	r := VerifPreloadedReliable(b)
-	buf := make([]byte, 1<<17)
+	return VerifReliableReadMsgUDPOn(VerifPreloadedReliable(b), make([]byte, 1<<17))
+}
+
+// VerifReliableReadMsgUDPOn is the call alone, on a prepared tube and buffer.
+func VerifReliableReadMsgUDPOn(r *Reliable, buf []byte) (msg []byte, left int, err error) {
 	n, _, _, _, err := r.ReadMsgUDP(buf, nil)
-	r.recvWindow.m.Lock()
-	left = r.recvWindow.buffer.Len()
-	r.recvWindow.m.Unlock()
-	return buf[:n], left, err
+	return buf[:n], VerifUnread(r), err
 }
